@@ -34,7 +34,7 @@ ClassN == {"A", "B", "C"}
 DefN   == {"d", "e", "x", "y"}
 FieldN == {"f", "g"}
 ArgN   == <<"a", "d">>            \* "d" is also a def name: a template argument shadows a global def
-VarN   == {"v", "w", "i"}         \* "i" is also the foreach iterator: shadowing of a top-level defvar
+VarN   == {"v", "w", "i", "a", "f"} \* "i" is also the foreach iterator, "a" a template argument, "f" a field: an inner declaration shadows an outer defvar
 McN    == {"M"}
 
 VARIABLES prog,      \* events so far
